@@ -1,6 +1,6 @@
 SPECIFICATION CSpec
 CONSTANT LayoutFn <- RecLayoutFn
 CONSTANT LayoutIds <- RecIds
-INVARIANT Conforms ObsMatches ModeMatches ModsShown
+INVARIANT AllProps
 VIEW View
 CHECK_DEADLOCK FALSE
